@@ -87,6 +87,10 @@ class STMTENDTRNRS(TrnRs):
 
     stmtendrs = SubAggregate(STMTENDRS)
 
+    @property
+    def statement(self):
+        return self.stmtendrs
+
 
 class LASTPMTINFO(Aggregate):
     """OFX section 11.3.10"""
